@@ -130,6 +130,8 @@ func main() {
 		fmt.Println(obs)
 	case "oracle":
 		cmdOracle(*prop, *seed, *n, *out)
+	case "engine-worker":
+		engineWorkerMain()
 	case "oracle-replay":
 		os.Exit(cmdOracleReplay(*prop, *cs))
 	case "coqcases":
@@ -288,6 +290,9 @@ func cmdCoqCases(in string, k int, out string) {
 		parts := strings.SplitN(sc.Text(), "\t", 2)
 		if len(parts) != 2 {
 			continue
+		}
+		if len(parts[0]) > 12000 {
+			continue // Coq's lexer overflows its stack on very long string literals; the extracted model still runs these
 		}
 		if i > 0 {
 			w.WriteString(";\n")
